@@ -740,6 +740,10 @@ def run_hist(case, check):
             elif k == 'sep':
                 o = objs[op[2]]
                 exp = true_H(s) - true_H(o); Pmin = None
+            # flows of both signs (left by an earlier separation) are outside the property: Stream.H of a non-empty stream
+            # whose total is 0 reads 0, not what the mixture model gives
+            parts = (others if k in ('mix', 'mixv') else [o]) + [s]
+            physical = all(x >= 0 for y in parts if isinstance(y, tmo.Stream) for x in state(y)[2])
             try:
                 if k == 'mix': s.mix_from(others, Q=op[3])
                 elif k == 'mixv': s.mix_from(others, Q=op[4])
@@ -758,9 +762,9 @@ def run_hist(case, check):
                 if check and k == 'mixv' and ne and F_in > 0 and s.F_mol == 0:
                     return fail(f'mixv: {who}: mix_from raised {type(ex).__name__} after emptying the receiver; the inlets held {F_in!r} kmol/hr '
                                 f'(a phase of the receiver was among the inlets)')
-                if check: return fail(f'{k}: {who} raised {type(ex).__name__}: {str(ex)[:100]}') if s.F_mol > 0 and reachable(s, 'H', exp or 0.) else (None, None)
+                if check: return fail(f'{k}: {who} raised {type(ex).__name__}: {str(ex)[:100]}') if physical and s.F_mol > 0 and reachable(s, 'H', exp or 0.) else (None, None)
                 break
-            if check and exp is not None and s.F_mol > 0 and all(x >= 0 for x in state(s)[2]):
+            if check and physical and exp is not None and s.F_mol > 0 and all(x >= 0 for x in state(s)[2]):
                 if not close(true_H(s), exp, 1e-7):
                     return fail(f'{k}: {who}: H of the receiver is {true_H(s)!r}, the inlets (read from the mixture model) give {exp!r}')
                 if Pmin is not None and s.P != Pmin: return fail(f'{k}: {who}: P of the receiver is {s.P!r}, lowest inlet pressure {Pmin!r}')
@@ -1135,11 +1139,12 @@ def oracle(case):
             target = getattr(s, w)
             s.T = T0
         flows = state(s)[2]
+        ph_before = None if isinstance(s, tmo.MultiStream) else s.phase
         try:
             with solver_ctx(case, real_otherwise=True):
                 setattr(s, w, target)
         except Exception as ex:
-            return f'set-{w}-fallback: setter raised {type(ex).__name__}: {str(ex)[:120]}' if case.get('script') and _one_flip_ok(case) else None
+            return f'set-{w}-fallback: setter raised {type(ex).__name__}: {str(ex)[:120]}' if case.get('script') and _one_flip_ok(case, ph_before) else None
         back = getattr(s, w)
         tag = f'set-{w}-fallback' if case.get('script') else f'set-{w}'
         if case.get('script') and not reachable(s, w, target): return None    # not a value the flipped phase can have in range
@@ -1211,12 +1216,13 @@ def oracle_eos(case):
     finally:
         env()
 
-def _one_flip_ok(case):
-    """single-phase l/g stream whose own phase is scripted to raise and whose flipped phase is solved by the real solver"""
+def _one_flip_ok(case, ph):
+    """single-phase stream that is in phase l or g WHEN THE SETTER IS CALLED (after the case's history), whose own phase is
+    scripted to raise and whose flipped phase is solved by the real solver; in every other situation the solver has no root
+    and the property, which is conditional on the solver answering, allows the setter to raise"""
     d = case['stream']
     if d['multi']: return False
-    ph, = d['rows']
-    if ph not in 'gl': return False
+    if ph not in ('g', 'l'): return False
     other = 'l' if ph == 'g' else 'g'
     return case['script'].get(ph) is None and case['script'].get(other) is not None
 
